@@ -332,6 +332,25 @@ class _Conditional(Exception):
     pass
 
 
+def _bind_single_def_locals(prog, f, env, expr, depth=0):
+    """Locals of `f` that `expr` reads, that are not in `env` yet and are bound exactly once to an expression over
+    names that can be evaluated (`signs_column = signs.reshape(-1, 1)`): evaluated into env."""
+    from ..astutil import single_def
+
+    if depth > 3:
+        return
+    for x in ast.walk(expr):
+        if isinstance(x, ast.Name) and isinstance(x.ctx, ast.Load) and x.id not in env and x.id in getattr(f, "locals", ()) and x.id not in f.params:
+            d = single_def(f, x.id)
+            if d is None:
+                continue
+            _bind_single_def_locals(prog, f, env, d, depth + 1)
+            try:
+                env[x.id] = _SplitEval(env, prog, f).eval(d)
+            except NotSymbolic:
+                pass
+
+
 def site_writer_conventions(ctx, rid):
     """Rows written = signs[r] * coefficients[permutation[r]] for every wavefunction writer (evaluated on symbols)."""
     prog = ctx.prog
@@ -387,6 +406,7 @@ def site_writer_conventions(ctx, rid):
                 def thunk(e=e, f=f, src=src, sg=sg, perm=perm, full=full, dparam=dparam, pv=pv, sv=sv):
                     env = {dparam: {"mo": _mo_data(full)}, pv: perm, sv: sg}
                     apply_rebindings(prog, f, env, e.lineno, (pv, sv))  # e.g. signs = signs.reshape(-1, 1)
+                    _bind_single_def_locals(prog, f, env, e)  # e.g. signs_column = signs.reshape(-1, 1)
                     got = _SplitEval(env, prog, f).eval(e)
                     # a two-step application (`c = C[permutation]` ... `c * signs`): follow the local name
                     cur, hold = e, holder
